@@ -31,7 +31,7 @@ def _base_of(fn, kind, l, root, cenv, env, av):
         x = strip_all(x.get("b") or {})
     ident = cenv.get(root.get("d"), root.get("n"))
     ident = ident if isinstance(ident, str) else root.get("n")
-    if not path and root.get("d") in av and isinstance(ident, str) and ident.startswith("="):
+    if not path and root.get("d") in av and isinstance(ident, str) and ident.startswith(("=", "local<")):
         # a plain local is named by everything that flows into it (not by the spelling of its first value): `x = img; if (bad(x))
         # x = f();` and `x = bad(img) ? f() : img` name the same local
         ti, tc = [], []
